@@ -205,12 +205,30 @@ def run(ctx):
         ctx.harness_race_run("c07", ["-out", "race.jsonl", "-seed", ctx.seed + 5, "-n", 150, "-cancel", 150], "in the engine under load")
     if ctx.broken and not ctx.findings and os.path.exists(os.path.join(verif.HBIN, "c07")):
         # search harder on the implementation: more runs, several GOMAXPROCS settings
-        for gmp, n in (("1", 150), ("2", 150), ("16", 300)):
-            for o in run_harness(ctx, n, ctx.seed + 100 + int(gmp), env={"GOMAXPROCS": gmp}, name="search_g%s.jsonl" % gmp):
+        import time as _time
+        t0 = _time.time()
+        # the buffer pool under the highest turnover first: 64 workers, thousands of error-free requests
+        for rnd, gmp in enumerate(("16", "4", "16", "2", "16", "8", "16", "4", "16", "32", "16", "4")):
+            if _time.time() - t0 > 120:
+                break
+            ok, _ = ctx.harness_run("c07", ["-out", "poolrace.jsonl", "-seed", ctx.seed + 77 + rnd, "-poolrace", 40], timeout=600, env={"GOMAXPROCS": gmp})
+            for o in (ctx.read_jsonl(os.path.join(ctx.work, "poolrace.jsonl")) if ok else []):
                 why = spec_on_impl(o)
                 if why:
-                    report(ctx, o, why)
+                    o["reqs"] = (o["reqs"] or [])[:20]
+                    report(ctx, o, "[%d error-free requests, %d generator workers] %s" % (len(o["wire"] or []), o["n"], why))
             if ctx.findings:
+                break
+        t0 = _time.time()
+        for rnd in range(6 if not ctx.findings else 0):
+            for gmp, n in (("1", 150), ("2", 150), ("16", 300), ("4", 300)):
+                for o in run_harness(ctx, n, ctx.seed + 100 + int(gmp) + 1000 * rnd, env={"GOMAXPROCS": gmp}, name="search_g%s.jsonl" % gmp):
+                    why = spec_on_impl(o)
+                    if why:
+                        report(ctx, o, why)
+                if ctx.findings:
+                    break
+            if ctx.findings or _time.time() - t0 > 150:
                 break
     if ctx.broken and not ctx.findings and (any("PacketFiller" in n for n in getattr(ctx, "source_diff", []))
                                             or any("Fill" in str(b[0]) for b in ctx.broken)):
